@@ -3437,8 +3437,9 @@ class SetInstance(object):
             attr.cached_count_sql = sql, adapter
         else: sql, adapter = cached_sql
         arguments = adapter(obj._get_raw_pkval_())
-        with cache.flush_disabled():
-            cursor = database._exec_sql(sql, arguments)
+        # pending changes are flushed first (as before any other query): objects deleted or re-pointed while their
+        # reference was not loaded are unknown to this collection's pending added/removed sets
+        cursor = database._exec_sql(sql, arguments)
         setdata.count = cursor.fetchone()[0]
         if setdata.added: setdata.count += len(setdata.added)
         if setdata.removed: setdata.count -= len(setdata.removed)
